@@ -93,7 +93,7 @@ def _gen_merge(rng, nb):
 
 
 def gen_case(rng, tier, n=None, blocks=None, merge=None):
-    n = n or rng.choice([1, 2, 3, 4, 5, 6, 8, 10, 15, 20, 30, 40])
+    n = n or rng.choice([1, 2, 3, 4, 5, 6, 8, 10, 15, 20, 30, 40, 17, 33, 65, 70, 129, 140, 260])
     d = rng.randint(1, 4)
     X = gen_data(rng, n, d)
     if rng.random() < 0.2:  # far-tail rows: tens to thousands of standard deviations away
@@ -116,16 +116,22 @@ def gen_case(rng, tier, n=None, blocks=None, merge=None):
             rng.shuffle(perm)
             cuts = sorted(rng.sample(range(1, n), nb - 1)) if nb > 1 else []
             blocks = [perm[a:b] for a, b in zip([0] + cuts, cuts + [n])]
+    if rng.random() < 0.2:
+        # "segments without frames": empty blocks are part of a valid partition of the rows
+        for _ in range(rng.randint(1, 2)):
+            blocks.insert(rng.randint(0, len(blocks)), [])
     nb = len(blocks)
     backends = []
     for b in blocks:
-        if rng.random() < 0.3:
+        if len(b) == 0:
+            backends.append({"type": "np"})
+        elif rng.random() < (0.3 if n <= 40 else 0.02):
             backends.append({"type": "da", "chunks": random_composition(rng, len(b))})
         elif len(b) == 1 and rng.random() < 0.3:
             backends.append({"type": "np1d"})
         else:
             backends.append({"type": "np"})
-    lazy = rng.random() < 0.3
+    lazy = rng.random() < 0.3 and all(len(b) > 0 for b in blocks) and n <= 40
     if lazy:
         # lazily merged statistics must all be Dask-backed: adding an uncomputed Dask-backed
         # container into a NumPy-backed one in place is refused by dask itself (ufunc out=)
@@ -262,6 +268,7 @@ def run_case(case, replay=None):
     rec.probe("variance_floor_clamped",
               bool((np.asarray(m.variances) != A(g["variances"])).any()))
     rec.probe("dask_block", any(b["type"] == "da" for b in case["backends"]))
+    rec.probe("empty_block", any(len(b) == 0 for b in blocks))
 
     vis = (np.array(m.weights, float), np.array(m.means, float), np.array(m.variances, float))
     fl = m.variance_thresholds
@@ -274,7 +281,7 @@ def run_case(case, replay=None):
         parts = []
         inputs = []
         for b, be in zip(blocks, case["backends"]):
-            xb = X[b].copy()
+            xb = X[b].copy() if len(b) else np.zeros((0, d))
             if be["type"] == "da":
                 xin = da.from_array(xb, chunks=(tuple(be["chunks"]), (d,)))
             elif be["type"] == "np1d":
@@ -537,7 +544,7 @@ def shrink(case):
     if n > 1:
         for i in range(n - 1, -1, -1):
             blocks = [[(r if r < i else r - 1) for r in b if r != i] for b in case["blocks"]]
-            if any(len(b) == 0 for b in blocks):
+            if sum(len(b) == 0 for b in blocks) > sum(len(b) == 0 for b in case["blocks"]):
                 continue
             backends = [{"type": "np"} for be in case["backends"]]
             yield dict(case, X=case["X"][:i] + case["X"][i + 1:], blocks=blocks,
